@@ -7,6 +7,7 @@ import (
 	"go/ast"
 	"go/constant"
 	"go/token"
+	"go/types"
 	"os"
 	"strings"
 
@@ -802,6 +803,38 @@ func runC05(cx *CheckCtx) {
 
 func runC14(cx *CheckCtx) {
 	w := cx.W
+	// readers of the roster answer from the committed list only: every scan Nodes hands out (or makes) is
+	// over family 'n' — a pending list ('u') is not readable before its commit
+	if m := cx.method("container", "Nodes"); m != nil {
+		a := cx.run(m)
+		okN, nF, bad := true, 0, ""
+		for _, s := range a.Sites(func(s *Site) bool { return s.Callee == "storage.Find" }) {
+			nF++
+			if fam := keyFamily(s.Args[1]); fam != "n" {
+				okN, bad = false, s.Args[1].pretty()
+			}
+		}
+		for _, ex := range a.Exits() {
+			for _, r := range ex.Results {
+				if !(r.Op == "find" && len(r.Args) > 0 && keyFamily(r.Args[0]) == "n") {
+					okN, bad = false, r.pretty()
+				}
+			}
+		}
+		// (a key edited in place after it was built — key[0] = … — is not what the term says it is)
+		for _, b := range m.Fn.Blocks {
+			for _, ins := range b.Instrs {
+				if st, isSt := ins.(*ssa.Store); isSt {
+					if ia, isIA := st.Addr.(*ssa.IndexAddr); isIA {
+						if sl, isSl := ia.X.Type().Underlying().(*types.Slice); isSl && types.Identical(sl.Elem().Underlying(), types.Typ[types.Byte]) {
+							okN, bad = false, "a key whose bytes are overwritten in place at "+w.pos(st.Pos())
+						}
+					}
+				}
+			}
+		}
+		cx.decide(okN && nF > 0, "roster-schema", "container.Nodes/committed-only", "Nodes scans the committed family 'n' only", "Nodes reads "+bad+": a list that was submitted and never committed is handed out as the current one", w.pos(m.Fn.Pos()))
+	}
 	// ---- D1 key schemas
 	if m := cx.method("container", "AddNextEpochNodes"); m != nil {
 		a := cx.run(m)
